@@ -219,6 +219,9 @@ type PathQ struct {
 	Avoid func(n ast.Node) bool
 	// Cut removes an edge carrying these facts.
 	Cut func(atoms []Atom) bool
+	// ToBlock, if set, makes arrival at this block (even if it has no
+	// nodes, e.g. a loop head) count as reaching the target.
+	ToBlock *cfg.Block
 }
 
 // Reach reports whether some path starting at `from` (inclusive) reaches a
@@ -264,6 +267,9 @@ func (f *Flow) Reach(from Site, target func(Site) bool, exitIsTarget bool, q Pat
 				if atoms := f.EdgeAtoms(it.b, k); atoms != nil && q.Cut(atoms) {
 					continue
 				}
+			}
+			if q.ToBlock != nil && succ == q.ToBlock {
+				return true, Site{succ, 0}
 			}
 			if !seen[succ] {
 				seen[succ] = true
